@@ -177,12 +177,17 @@ def get_arg_defaults(task: "Task", args: tuple, kwargs: dict) -> dict:
     default_kwargs = {}
 
     sig = task.signature
-    for i, param in enumerate(sig.parameters.values()):
-        if i < len(args):
-            # User already specified this arg in args.
-            continue
+    num_positional = 0
+    for param in sig.parameters.values():
+        if param.kind in (param.POSITIONAL_ONLY, param.POSITIONAL_OR_KEYWORD):
+            # Only these parameters can be given by position. Any further positional
+            # arguments are variadic and do not stand for the parameters that follow.
+            num_positional += 1
+            if num_positional <= len(args):
+                # User already specified this arg in args.
+                continue
 
-        elif param.name in kwargs:
+        if param.name in kwargs:
             # User already specified this arg in kwargs.
             continue
 
